@@ -231,6 +231,22 @@ def extract_end(P, body, fsm):
     return end
 
 
+def dead_states(fsm, end):
+    """Greatest set of states from which every continuation stays inside the set and end of input never accepts."""
+    states = {k[0] for k in fsm["trans"]}
+    dead = {st for st in states if all(c["result"] != "accept" for c in end.get(st, [])) and end.get(st) is not None}
+    changed = True
+    while changed:
+        changed = False
+        for st in list(dead):
+            for (vn, cname), outs in fsm["trans"].items():
+                if vn == st and any(("panic" in o) or o.get("next") not in dead for o in outs):
+                    dead.discard(st)
+                    changed = True
+                    break
+    return dead
+
+
 def product(fsm, end, spec):
     """BFS over the product of the extracted machine and the reference transducer.
     Returns (states, transitions, mismatches[list of dict(witness, what)])."""
@@ -283,6 +299,13 @@ def product(fsm, end, spec):
             sc = spec_cls[cname]
             t = sdef["on"].get(sc)
             if t is None:
+                if sc in sdef.get("reject", []):
+                    # documented malformed input: the parser must move to its absorbing error state
+                    outs_r = fsm["trans"].get((iv, cname), [])
+                    cand_r = [o for o in outs_r if o["nonempty"] is None or o["nonempty"] == (not empty)]
+                    if len(cand_r) != 1 or "panic" in cand_r[0] or cand_r[0].get("next") not in dead_states(fsm, end):
+                        report("reject", w + (cname,), "in state %s the character class %s (a quote or '=' where a name must begin) does not make the tag malformed: "
+                               "the parser goes on in state %s" % (iv, cname, cand_r[0].get("next") if len(cand_r) == 1 else "?"))
                 continue            # outside the grammar
             ntrans += 1
             s2, set2, ev2 = t
